@@ -125,6 +125,19 @@ def check(F, rep, tier):
     # ---- R12.6 dependencies ------------------------------------------------------------------------------------------------------
     # "the emitted object re-reads to itself / pipe == direct" needs the object to be normalised AFTER the overrides and bumps
     # (epoch Some(0) -> None), and "malformed input is refused" needs stdin to be decoded strictly
+    # ---- R12.10 what was read from stdin is processed as read: the stdin pipeline itself writes no variable of the object ---------------
+    nsp = 0; altered = 0
+    for p_, g_ in sorted(F.fns.items()):
+        if "crate::cli::version::stdin_pipeline::" not in p_ or "::tests" in p_: continue
+        nsp += 1; rep.fn_seen(g_)
+        for bi, si, st in g_.stmts():
+            if st[0] != "=" or len(st[1]) < 2: continue
+            fl = [e for e in st[1][1:] if not isinstance(e, str) and e[0] == "f" and str(e[3]).endswith("::ZervVars")]
+            if fl:
+                altered += 1
+                rep.bad("R12.10", "stdin-object-altered:" + fl[-1][2], "the stdin pipeline writes vars.%s of the object it has just read (%s): the object that is processed and re-emitted is not the one that was piped in, so piping changes the result (e.g. a timestamp rescaled)" % (fl[-1][2], p_.replace("crate::", "").rsplit("::", 1)[-1]), "%s bb%d line %s" % (g_.where(), bi, g_.blocks[bi]["line"]))
+    if not altered: rep.ok("R12.10", "the stdin pipeline (%d functions) writes no variable of the object it read; overrides and bumps are applied by the shared processing steps" % nsp, nontrivial_key="stdinasread")
+    rep.floor("R12.10", "functions of the stdin pipeline", nsp, 1)
     core.borrow(F, rep, "c05", "C05", "R12.6", ("R05.7:phase-order",), "overrides and bumps are applied before normalize()")
     ex = F.fn("crate::cli::app::extract_stdin_once")
     if rep.anchor("R12.6", "cli::app::extract_stdin_once", ex):
@@ -312,12 +325,48 @@ def who_writes_schema(F, rep):
             elif n_ok_ and not probs_: rep.ok(rule, "ZervSchema::%s returns Ok only through a successful validate()" % nm, nontrivial_key=nm)
             else: rep.bad(rule, "constructor-without-validate:" + nm, "ZervSchema::%s can return Ok without validate()" % nm, f.where())
 
+def validator_loops(F, rep, V):
+    """R12.9: a validation loop looks at every component: the only way out of a loop of the validators that can still end in Ok is the
+    iterator running out.  (A `break` after "everything needed has been seen" skips the checks of the components that follow.)"""
+    rule = "R12.9"
+    nloops = 0
+    for p_, g_ in sorted(F.fns.items()):
+        if not p_.startswith(V) or g_.kind == "closure": continue
+        pr = mir.preds(g_)
+        for hb, t in g_.calls():
+            if not (mir.callee(t) or "").endswith("Iterator>::next"): continue
+            # natural loop of this header: blocks that reach hb and are reachable from it
+            fwd = mir.reachable(g_, hb)
+            body = {b_ for b_ in fwd if hb in mir.reachable(g_, b_)} if any(hb in mir.reachable(g_, s_) for s_ in mir.succs(g_, hb)) else set()
+            if not body: continue
+            nloops += 1
+            dest = t[3][0] if t[3] else None
+            early = []
+            for b_ in sorted(body):
+                if g_.blocks[b_].get("cleanup"): continue
+                for s_ in mir.succs(g_, b_):
+                    if s_ in body or g_.blocks[s_].get("cleanup"): continue
+                    tt = g_.blocks[b_]["t"]
+                    # the regular exit: the switch on the discriminant of what next() returned
+                    if tt[0] == "switch" and dest is not None and any(st[0] == "=" and st[2][0] == "discr" and st[2][1][0] == dest for st in g_.blocks[b_]["s"]): continue
+                    if tt[0] == "switch" and dest is not None and tt[1][0] in ("cp", "mv") and any(st[0] == "=" and st[1] == tt[1][1] and st[2][0] == "discr" and st[2][1][0] == dest for b2 in body for st in g_.blocks[b2]["s"]): continue
+                    # can this exit still end in Ok?
+                    after = mir.reachable(g_, s_)
+                    oks = [b3 for b3 in after for st in g_.blocks[b3]["s"] if st[0] == "=" and st[1] == [0] and st[2][0] == "agg" and isinstance(st[2][1], dict) and st[2][1].get("variant") == "Ok"]
+                    if oks: early.append((b_, s_))
+            site = "%s bb%d line %s" % (g_.where(), hb, g_.blocks[hb]["line"])
+            nm = p_.rsplit("::", 1)[-1]
+            if early: rep.bad(rule, "validation-loop-left-early:" + nm, "%s leaves its loop over the components before the iterator is exhausted and can still return Ok (exit edges %s): components after that point are not validated (core [major, minor, patch, epoch] is accepted)" % (nm, early[:3]), site)
+            else: rep.ok(rule, "%s: the loop ends only when the components run out, or with an error" % nm, sample=site, nontrivial_key="loop%s%d" % (nm, hb))
+    rep.floor(rule, "component loops in the schema validators", nloops, 3)
+
 def validator_complete(F, rep):
     rule = "R12.4"
     V = "crate::version::zerv::schema::validation::<impl crate::version::zerv::schema::core::ZervSchema>::"
     v = F.fn(V + "validate")
     if not rep.anchor(rule, "ZervSchema::validate", v): return
     rep.fn_seen(v)
+    validator_loops(F, rep, V)
     need = ["validate_core", "validate_extra_core", "validate_build"]
     oks = [bi for bi, si, st in v.stmts() if st[0] == "=" and st[1] == [0] and st[2][0] == "agg" and st[2][1].get("variant") == "Ok"]
     for nm in need:
